@@ -392,7 +392,7 @@ def run(tier, rng):
     def lap(what):
         core.log(f'[C04] {what}: {time.time() - t0:.1f}s')
     # ---- A
-    n = 1200 if quick else 20000
+    n = 1200 if quick else 8000
     depth = 3 if quick else 4
     cases = [gen_case(rng, rng.randint(1, depth)) for _ in range(n)]
     impl_out = core.pmap(run_impl, cases)
@@ -420,7 +420,7 @@ def run(tier, rng):
                 {'case': small, 'impl': run_impl(small), 'model': model_many([small], tag='c04s')[0]}, signature=sig))
     lap('A done')
     # ---- A'
-    nd = 250 if quick else 4000
+    nd = 250 if quick else 2000
     dcases = [gen_desc_case(rng, rng.randint(0, 2)) for _ in range(nd)]
     dimpl = core.pmap(run_desc_impl, dcases)
     dmodel = core.coq_eval('c04d', IMPORTS, [desc_model_expr(c) for c in dcases], shard=200)
@@ -438,7 +438,7 @@ def run(tier, rng):
                                              {'case': c, 'impl': i, 'model': m, 'desc': True}, signature=sig))
     lap('A2 done')
     # ---- B
-    na = 300 if quick else 5000
+    na = 300 if quick else 2500
     acases = [gen_agg_case(rng, rng.randint(0, 2)) for _ in range(na)]
     aimpl = core.pmap(run_agg_impl, acases)
     amodel = core.coq_eval('c04a', IMPORTS, [agg_model_expr(c) for c in acases], shard=200)
@@ -496,7 +496,7 @@ def run(tier, rng):
 
     lap('sweep 1 done')
     # ---- sweep 2 / 3
-    nled = 20 if quick else 600
+    nled = 20 if quick else 300
     per = 1 if quick else 2
     lcases = [{'text': S.FIXED_LEDGER, 'seed': 1, 'per_overload': 2}]
     sizes = {}
